@@ -115,8 +115,9 @@ class _FS:
         self.calls = []
 
     def cat(self, paths, start=None):
+        # fsspec contract: a dict keyed by path; its order is the filesystem's business (local/memory: sorted)
         self.calls.append((list(paths), start))
-        return {p: _Piece(p, self.footers[p]) for p in paths}
+        return {p: _Piece(p, self.footers[p]) for p in sorted(paths)}
 
 
 class _Int:
@@ -128,17 +129,21 @@ class _Int:
         return b[1]
 
 
-def h_many_fast(r0: int, r1: int, r2: int, r3: int, n1: int, f1: int, f2: int) -> bool:
+ORDERS = [[0, 1, 2], [0, 2, 1], [1, 0, 2], [1, 2, 0], [2, 0, 1], [2, 1, 0]]
+
+
+def h_many_fast(r0: int, r1: int, r2: int, r3: int, n1: int, f1: int, f2: int, order: int) -> bool:
     """
     pre: 0 <= r0 < LIM and 0 <= r1 < LIM and 0 <= r2 < LIM and 0 <= r3 < LIM and 0 <= n1 <= 2
-    pre: 1 <= f1 < LIM and 1 <= f2 < LIM
+    pre: 1 <= f1 < LIM and 1 <= f2 < LIM and 0 <= order < 6
     post: __return__
     """
-    # three plain files, footers of symbolic length fetched by fs.cat (the >= 3 files branch)
-    files = ["root/a.parq", "root/b.parq", "root/c.parq"]
+    # three plain files given in any order, footers of symbolic length fetched by fs.cat (the >= 3 files branch)
+    names = ["root/a.parq", "root/b.parq", "root/c.parq"]
+    files = [names[i] for i in ORDERS[order]]
     rowspec = [[(r0, 1)], [(r1, 2), (r2, 3)][:n1], [(r3, 4)]]
     PF.registry = {fn: (rows, ["s"]) for fn, rows in zip(files, rowspec)}
-    fs = _FS({"root/b.parq": f1, "root/c.parq": f2})
+    fs = _FS({files[1]: f1, files[2]: f2})
     saved = (api.ParquetFile, util._get_fmd, util.__dict__.get("int"))
     api.ParquetFile = PF
     util._get_fmd = lambda piece: PF(piece.fn).fmd
@@ -151,7 +156,7 @@ def h_many_fast(r0: int, r1: int, r2: int, r3: int, n1: int, f1: int, f2: int) -
     total = sum(r for rows in rowspec for r, _ in rows)
     # every footer must have been fetched completely: the last fetch of a file starts at least footer+8 from its end
     complete = True
-    for fn, fl in (("root/b.parq", f1), ("root/c.parq", f2)):
+    for fn, fl in ((files[1], f1), (files[2], f2)):
         starts = [-s for paths, s in fs.calls if fn in paths]
         complete = complete and starts[-1] >= fl + 8
     return _ok_paths(files, basepath, fmd, rowspec) and fmd.num_rows == total and complete
@@ -168,8 +173,25 @@ class _IntNS:
         return b[1]
 
 
-def replay_h_many_fast(**kw):
-    return None, "no concrete driver"
+def replay_h_many_fast(r0, r1, r2, r3, n1, f1, f2, order):
+    """three real files opened as a list in the given order"""
+    import shutil, tempfile
+    import pandas as pd
+    import fastparquet
+    d = tempfile.mkdtemp(prefix="c14-")
+    try:
+        names = [os.path.join(d, n) for n in ("a.parq", "b.parq", "c.parq")]
+        for i, fn in enumerate(names):
+            fastparquet.write(fn, pd.DataFrame({"x": [10 * i, 10 * i + 1]}))
+        files = [names[i] for i in ORDERS[order]]
+        out = fastparquet.ParquetFile(files).to_pandas()
+        want = [v for i in ORDERS[order] for v in (10 * i, 10 * i + 1)]
+        if list(out["x"]) != want:
+            return True, "ParquetFile(%r) returns rows %r, the files in the given order hold %r" % (
+                [os.path.basename(f) for f in files], list(out["x"]), want)
+        return False, "concatenation in the given order"
+    finally:
+        shutil.rmtree(d, ignore_errors=True)
 
 
 # ------------------------------------------------------------------------- analyse_paths ---
